@@ -1,15 +1,14 @@
 //@ module: th_call_slider_merge
 //@ crate: air-trace-handler
 //@ attach: crates/air-lib/trace-handler/src/merger/call_merger.rs
-//@ functions: try_merge_next_state_as_call; prepare_call_result; position_mapping::prepare_positions_mapping; From<PreparationScheme> for ValueSource; TraceSlider::next_state; bimap::BiHashMap::insert / get_by_left
-//@ stubs: <ExecutedState as Clone>::clone -> exact clone for Par and Call states, asserts that no other variant is cloned (traces here hold only calls); std::hash::RandomState::new -> fixed keys; alloc::fmt::format -> empty String
-//@ assumes: previous and current trace hold at most one call state each (presence symbolic through the slider interval); state palette as in th_call_merger (previous kind fixed per harness, current kind enumerated by a concrete loop, selectors / ids / generations symbolic)
+//@ functions: try_merge_next_state_as_call; prepare_call_result; position_mapping::prepare_positions_mapping; From<PreparationScheme> for ValueSource; TraceSlider::next_state
+//@ stubs: bimap::BiHashMap::insert -> records (which map, left, right) in a harness log instead of inserting (hashbrown inserts did not finish in 30 min; the code under test is WHICH positions are recorded in WHICH map); <ExecutedState as Clone>::clone -> exact clone for Par and Call states, asserts that no other variant is cloned (traces here hold only calls); std::hash::RandomState::new -> fixed keys; alloc::fmt::format -> empty String
+//@ assumes: previous and current trace hold at most one call state each (presence symbolic through the slider interval); three representative kind pairs (the merger is characterised for all pairs in th_call_merger); selectors / ids / generations symbolic
 //@ decides: C05/C09/C13: when the state exists only in previous (only in current) data it is taken unchanged with value source previous (current); when it exists in both, the call merger decides; when in neither, NotMet; both sliders advance by exactly the states they held; the position maps record where the merged value came from (previous, current or both) - the basis for stream generations (C12/C13)
 //@ outside: traces with more than one state per side (the slider kernel covers positions), par/fold structure around the call
-//@ harness: name=call_slider_merge_req props=C05,C09,C13,C04 cap=1800 cost=200 sym="presence of the state in previous / current data; selectors, ids, generations" bound="<= 1 state per trace; current kind: concrete loop over 6 kinds"
-//@ harness: name=call_slider_merge_scalar props=C05,C09,C13,C04 cap=1800 cost=200 sym="same" bound="same"
-//@ harness: name=call_slider_merge_stream props=C05,C09,C13,C04,C12 cap=1800 cost=200 sym="same" bound="same"
-//@ harness: name=call_slider_merge_failed props=C05,C09,C13,C04 cap=1800 cost=200 sym="same" bound="same"
+//@ harness: name=call_slider_merge_both_stream_results props=C05,C09,C13,C04,C12,C11 cap=2400 cost=300 sym="presence of the state in previous / current data; CID selectors; any generations" bound="<= 1 state per trace; both states stream results"
+//@ harness: name=call_slider_merge_request_vs_result props=C05,C09,C13,C04,C11 cap=2400 cost=300 sym="presence in previous / current data; selectors; any call id" bound="previous: request with call id, current: scalar result"
+//@ harness: name=call_slider_merge_result_vs_request props=C05,C09,C13,C04,C11 cap=2400 cost=300 sym="presence in previous / current data; selectors" bound="previous: failed result, current: request"
 
 use super::*;
 use air_interpreter_cid::CID;
@@ -21,6 +20,48 @@ fn fmt_stub(_: std::fmt::Arguments<'_>) -> String {
 fn random_state_stub() -> std::hash::RandomState {
     unsafe { std::mem::transmute::<(u64, u64), std::hash::RandomState>((0, 0)) }
 }
+/// log of BiHashMap::insert calls: (address of the map, left, right)
+static mut LOG: [(usize, u32, u32); 2] = [(0, 0, 0); 2];
+static mut NLOG: usize = 0;
+
+fn bimap_insert_stub<L, R, LS, RS>(m: &mut bimap::BiHashMap<L, R, LS, RS>, l: L, r: R) -> bimap::Overwritten<L, R>
+where
+    L: Eq + std::hash::Hash,
+    R: Eq + std::hash::Hash,
+    LS: std::hash::BuildHasher,
+    RS: std::hash::BuildHasher,
+{
+    // the only instantiation reachable here is L = R = TracePos (repr(transparent) over u32)
+    kani::assert(std::mem::size_of::<L>() == 4 && std::mem::size_of::<R>() == 4, "stub exactness: position maps only");
+    unsafe {
+        let lv: u32 = std::mem::transmute_copy(&l);
+        let rv: u32 = std::mem::transmute_copy(&r);
+        if NLOG < 2 {
+            LOG[NLOG] = (m as *mut _ as *mut u8 as usize, lv, rv);
+        }
+        NLOG += 1;
+    }
+    std::mem::forget(l);
+    std::mem::forget(r);
+    bimap::Overwritten::Neither
+}
+
+/// what was recorded for the given map: None, or (left, right); asserts at most one record per map
+fn recorded(map_addr: usize) -> Option<(u32, u32)> {
+    unsafe {
+        let mut found = None;
+        let mut i = 0;
+        while i < 2 && i < NLOG {
+            if LOG[i].0 == map_addr {
+                kani::assert(found.is_none(), "C13: one record per map and merged state");
+                found = Some((LOG[i].1, LOG[i].2));
+            }
+            i += 1;
+        }
+        found
+    }
+}
+
 fn exact_clone_stub(s: &ExecutedState) -> ExecutedState {
     match s {
         ExecutedState::Par(p) => ExecutedState::Par(*p),
@@ -89,18 +130,24 @@ fn body(a: Sel, b: Sel) {
     let r1 = dk.prev_slider_mut().set_position_and_len(1.into(), in_prev as u32);
     let r2 = dk.current_slider_mut().set_position_and_len(0.into(), in_cur as u32);
     kani::assert(r1.is_ok() && r2.is_ok(), "harness: intervals fit");
+    unsafe {
+        NLOG = 0;
+    }
+    let prev_map = &dk.new_to_prev_pos as *const _ as *const u8 as usize;
+    let cur_map = &dk.new_to_current_pos as *const _ as *const u8 as usize;
     let r = try_merge_next_state_as_call(&mut dk);
+    let (in_prev_map, in_cur_map) = (recorded(prev_map), recorded(cur_map));
     kani::assert(usize::from(dk.prev_slider().position()) == 1 + in_prev as usize, "C09: previous slider advanced by what it held");
     kani::assert(usize::from(dk.current_slider().position()) == in_cur as usize, "C09: current slider advanced by what it held");
     match (&r, in_prev, in_cur) {
         (Ok(MergerCallResult::NotMet), false, false) => {}
         (Ok(MergerCallResult::Met(m)), true, false) => {
             kani::assert(eq_mk(&m.result, a) && matches!(m.source, ValueSource::PreviousData), "C05/C09: a state only in previous data is taken unchanged, source previous");
-            kani::assert(dk.new_to_prev_pos.get_by_left(&0.into()) == Some(&1.into()) && dk.new_to_current_pos.is_empty(), "C13: position map points to previous data only");
+            kani::assert(in_prev_map == Some((0, 1)) && in_cur_map.is_none(), "C13: position map points to previous data only");
         }
         (Ok(MergerCallResult::Met(m)), false, true) => {
             kani::assert(eq_mk(&m.result, b) && matches!(m.source, ValueSource::CurrentData), "C05/C09: a state only in current data is taken unchanged, source current");
-            kani::assert(dk.new_to_current_pos.get_by_left(&0.into()) == Some(&0.into()) && dk.new_to_prev_pos.is_empty(), "C13: position map points to current data only");
+            kani::assert(in_cur_map == Some((0, 0)) && in_prev_map.is_none(), "C13: position map points to current data only");
         }
         (Ok(MergerCallResult::Met(m)), true, true) => {
             kani::assert(honest(a, b), "C04/C14: merged only if honest");
@@ -109,12 +156,12 @@ fn body(a: Sel, b: Sel) {
             kani::assert(matches!(m.source, ValueSource::CurrentData) == from_current, "C12/C13: value source follows the state that was kept");
             kani::assert(usize::from(m.trace_pos) == 0, "C05: position of the merged state in the result trace");
             if from_current {
-                kani::assert(dk.new_to_current_pos.get_by_left(&0.into()) == Some(&0.into()) && dk.new_to_prev_pos.is_empty(), "C13: maps to its position in current data");
+                kani::assert(in_cur_map == Some((0, 0)) && in_prev_map.is_none(), "C13: maps to its position in current data");
             } else if is_request(b) || is_request(a) {
-                kani::assert(dk.new_to_prev_pos.get_by_left(&0.into()) == Some(&1.into()) && dk.new_to_current_pos.is_empty(), "C13: maps to its position in previous data");
+                kani::assert(in_prev_map == Some((0, 1)) && in_cur_map.is_none(), "C13: maps to its position in previous data");
             } else {
-                kani::assert(dk.new_to_prev_pos.get_by_left(&0.into()) == Some(&1.into()), "C11/C13: a state present in both data maps to its position in the PREVIOUS trace ...");
-                kani::assert(dk.new_to_current_pos.get_by_left(&0.into()) == Some(&0.into()), "C11/C13: ... and to its position in the CURRENT trace");
+                kani::assert(in_prev_map == Some((0, 1)), "C11/C13: a state present in both data maps to its position in the PREVIOUS trace ...");
+                kani::assert(in_cur_map == Some((0, 0)), "C11/C13: ... and to its position in the CURRENT trace");
             }
         }
         (Err(_), true, true) => kani::assert(!honest(a, b), "C04: only dishonest pairs are rejected"),
@@ -126,29 +173,26 @@ fn body(a: Sel, b: Sel) {
     std::mem::forget(dk);
 }
 
-macro_rules! per_kind {
-    ($($name:ident => $kind:expr;)*) => {
+macro_rules! pair {
+    ($($name:ident => $ka:expr, $kb:expr;)*) => {
         $(
             #[kani::proof]
-            #[kani::unwind(8)]
+            #[kani::unwind(4)]
+            #[kani::stub(bimap::BiHashMap::insert, bimap_insert_stub)]
             #[kani::stub(<air_interpreter_data::ExecutedState as std::clone::Clone>::clone, exact_clone_stub)]
             #[kani::stub(std::hash::RandomState::new, random_state_stub)]
             #[kani::stub(alloc::fmt::format, fmt_stub)]
             fn $name() {
-                let a = sel_of_kind($kind);
-                let mut kb = 0u8;
-                while kb < 6 {
-                    body(a, sel_of_kind(kb));
-                    kb += 1;
-                }
+                body(sel_of_kind($ka), sel_of_kind($kb));
             }
         )*
     };
 }
 
-per_kind! {
-    call_slider_merge_req => 1;
-    call_slider_merge_scalar => 2;
-    call_slider_merge_stream => 3;
-    call_slider_merge_failed => 5;
+// The call merger itself is characterised for all kind pairs in th_call_merger; here three representative
+// pairs exercise the slider / presence / position-map wiring around it.
+pair! {
+    call_slider_merge_both_stream_results => 3, 3;
+    call_slider_merge_request_vs_result => 1, 2;
+    call_slider_merge_result_vs_request => 5, 0;
 }
